@@ -201,6 +201,9 @@ func checkC11(c *Ctx) {
 	c.Rule("C11-R16", "mainLoop scans a freshly read chunk with expire=false; only the escape timer's branch says that the wait is over (how much is buffered says nothing about whether the rest of a character is still on its way)")
 	c.Expect("C11-R16", 1)
 	checkScanExpiry(c, p, "C11-R16")
+	c.Rule("C11-R18", "when the escape timer expires every parser gets its turn: no parser call of the collect loop sits behind a test of the pending-counter alone (rxvt's focus-out report ESC [ O is a prefix of its Ctrl-arrow keys: it is held back while they may complete, and must be taken for a focus report when the wait is over)")
+	c.Expect("C11-R18", 6)
+	checkParsersTriedOnExpiry(c, p, "C11-R18")
 	pr := p.Fn("tcell:(*tScreen).parseRune")
 	if pr == nil {
 		c.Undecided("C11-R1", "parseRune", "-", "not found")
